@@ -12,7 +12,8 @@ from vp import simprops as SP
 ID = 'C01'
 RULE = ('Hypothesis builds valid powertrains by construction (motor + 1..7 elements: flywheels, spur / helical '
         'pairs, worm matings in both orientations, joints; every quantity in a random unit of its kind), loads '
-        'depending on time, speed and position (also above stall, either sign), initial conditions, and a '
+        'depending on time, speed and position (also above stall, either sign, or exactly zero), duty-cycle histories from '
+        'ConstantPWM windows (incl. the dead zone), initial conditions, and a '
         'history (run | run + continued run | run, reset, rerun - also from other initial conditions; a dedicated part reruns '
         'self-locking drives that ended held). After every history segment, for EVERY recorded '
         'instant and EVERY adjacent pair, position / speed / acceleration of the upstream element must equal the '
@@ -69,6 +70,6 @@ def s_held_rerun(draw, max_steps=30):
 
 def parts(tier):
     if tier == 'quick':
-        return [Part('held-reruns', check, strategy=s_held_rerun(), examples=120, shards=4), Part('chains', check, strategy=G.s_case(max_len=6, max_steps=30, nonmultiple=True), examples=350, shards=4)]
+        return [Part('held-reruns', check, strategy=s_held_rerun(), examples=120, shards=4), Part('chains', check, strategy=G.s_case_controlled(max_len=6, max_steps=30, nonmultiple=True), examples=350, shards=4)]
     return [Part('held-reruns', check, strategy=s_held_rerun(80), examples=1500, shards=4),
-            Part('chains', check, strategy=G.s_case(max_len=11, max_steps=120, nonmultiple=True), examples=2500, shards=12)]
+            Part('chains', check, strategy=G.s_case_controlled(max_len=11, max_steps=120, nonmultiple=True), examples=2500, shards=12)]
